@@ -50,7 +50,7 @@ def main(ctx):
                                       timeout=(1500 if thorough else 400) * scale,
                                       env={'VERIF_TIME_SCALE': str(scale)})
     if rc != 0 or obs is None:
-        raise RuntimeError('process driver failed (rc=%s): %s' % (rc, log[-1500:]))
+        sandbox.driver_failed('process', rc, log)
     bad = [o for o in obs if any(x['act']['e'] in ('harness_timeout', 'harness_error') for x in o)]
     if bad:
         raise RuntimeError('harness: child did not end: %r' % (bad[0][0]['state'],))
